@@ -149,6 +149,13 @@ def run(ctx):
                 if got != want:
                     ctx.spec_fail('use|selectlt-le-gt-ge|' + hl,
                                   'selectlt/le/gt/ge disagree with the ordering: got %s want %s' % (got, want), case)
+                # chunked sorts, both directions, first pass and the pass served from the chunk-file cache
+                for rev, want in ((False, exp), (True, expr)):
+                    vw = etl.sort(t2, 'f', reverse=rev, buffersize=1)
+                    for pno in (1, 2):
+                        got = [r[1] for r in list(vw)[1:]]
+                        if got != want:
+                            ctx.spec_fail('use|chunked-sort|' + hl, 'sort spilled to chunk files (reverse=%s, pass %d) disagrees with the ordering' % (rev, pno), case)
                 # ties on the key must never fall back to comparing the rest of the rows natively
                 t3 = [['k', 'f'], [1, a], [1, b]]
                 out3 = [r[1] for r in list(etl.sort(t3, 'k', buffersize=1))[1:]]
